@@ -313,7 +313,10 @@ def r82(ctx, R):
     okf = False
     if dwhere:
         d = single_def(f, src(dwhere[0].args[0]))
-        okf = d is not None and 'execute' in src(d.value)
+        # (through intermediate names: rows = execute(...).fetchall(); ids =
+        # list(map(itemgetter(0), rows)))
+        okf = d is not None and 'execute' in src(
+            C.inline_locals(f, d.value))
     R.ob('R8.2', 'consumers-without-allocations:delete-filtered', okd and okf,
          'only consumers returned by that query are deleted', names, func=f)
     R.count('R8.2', 1, 1)
